@@ -53,12 +53,19 @@ pub fn bad_alloc(data: &[u8]) -> Vec<u8> {
     let n = u32::from_be_bytes([data[0], data[1], data[2], data[3]]) as usize;
     Vec::with_capacity(n)
 }
-pub fn good_alloc(data: &[u8]) -> Vec<u8> {
+pub fn bad_alloc_u16(data: &[u8]) -> Vec<u64> {
     if data.len() < 2 {
         return Vec::new();
     }
     let n = u16::from_be_bytes([data[0], data[1]]) as usize;
     Vec::with_capacity(n)
+}
+pub fn good_alloc(data: &[u8]) -> Vec<u64> {
+    if data.len() < 2 {
+        return Vec::new();
+    }
+    let n = u16::from_be_bytes([data[0], data[1]]) as usize;
+    Vec::with_capacity(n.min(data.len()))
 }
 
 // ---- loop progress
